@@ -72,6 +72,9 @@ MANIFEST = dict(
 
 CASE_TIMEOUT = 4.0        # seconds of wall clock for one session on the GLib worker (a normal one takes milliseconds)
 MAX_HANGS = 4
+RETRY_TIMEOUT = 30.0      # a session that exceeded CASE_TIMEOUT is run once more, alone, with this budget
+SUSPECT_FUEL = 300        # model fuel for sessions the real GLib loop did not finish (diverging sessions run out at once)
+SUSPECT_TIMEOUT = 20      # seconds for one such model run
 PROOFS = os.path.join(lib.VERIF, "coq/theories/proofs/C20Proofs.v")
 OUT = {0: "normal", 1: "ExitMainLoop", 2: "Exception", 3: "SystemExit", 4: "blocked", 5: "step-limit", 6: "timeout"}
 
@@ -137,14 +140,20 @@ class FourWay(object):
             i = run_main(c)
             if len(self.hung) >= MAX_HANGS:
                 break                 # every hang costs the full budget: enough evidence, stop here
+            if 5 in i[0]:
+                self.dropped["main_steps"] += 1
+                continue
             g = worker.run(copy.deepcopy(c))
             if isinstance(g, dict):
                 raise lib.ModelError("GLib worker failed: %s" % g)
             if 6 in g[0]:
-                self.hung.append((c, i))
-            if 5 in i[0]:
-                self.dropped["main_steps"] += 1
-                continue
+                # wall-clock budget exceeded: once more, alone, with a generous budget (a loaded machine must not produce alarms)
+                with glib_impl.Worker(case_timeout=RETRY_TIMEOUT) as w2:
+                    g = w2.run(copy.deepcopy(c))
+                if isinstance(g, dict):
+                    raise lib.ModelError("GLib worker failed: %s" % g)
+                if 6 in g[0]:
+                    self.hung.append((c, i))
             if max_depth(i) > MAX_DEPTH or (isinstance(g, list) and max_depth(g) > MAX_DEPTH):
                 self.dropped["too_deep"] += 1          # CPython's recursion limit is not part of the models
                 continue
@@ -157,27 +166,30 @@ class FourWay(object):
         CH = 2000
         try:
             for a in range(0, len(self.cases), CH):
-                self.model_m += lib.model_run("loop", self.cases[a:a + CH], timeout=300)
-                self.model_g += lib.model_run("gloop", self.cases[a:a + CH], timeout=300)
-                self.model_mf += lib.model_run("gloopmf", self.cases[a:a + CH], timeout=300)
-                self.frag += [r == [1] for r in lib.model_run("gloopfrag", self.cases[a:a + CH], timeout=300)]
+                self.model_m += lib.model_run("loop", self.cases[a:a + CH], timeout=900)
+                self.model_g += lib.model_run("gloop", self.cases[a:a + CH], timeout=900)
+                self.model_mf += lib.model_run("gloopmf", self.cases[a:a + CH], timeout=900)
+                self.frag += [r == [1] for r in lib.model_run("gloopfrag", self.cases[a:a + CH], timeout=900)]
         except subprocess.TimeoutExpired as e:
             raise lib.ModelError("model runner timed out: %s" % e)
         # sessions the real GLib loop did not finish: legitimate only if the GLib model does not finish them either
         self.unfinished = []
-        # (bounded fuel — the interpreter's cost grows with the square of the trace —: the model must run out of fuel too
-        #  and the two traces must agree as far as both go)
-        if self.suspect:
+        # The model gets a SMALL fuel bound (its cost grows with the square of the trace; a diverging session needs no more to
+        # run out), one session per call with a short timeout.  "The model does not finish within the bound either" (out of
+        # fuel with the same trace as far as both go, or no answer in time) is the matching outcome: both diverge.  A runner
+        # timeout on such a session is never an alarm by itself.
+        for c, i, g in self.suspect:
             try:
-                ms = lib.model_run("gloop", [[1500, c[1], c[2]] for c, _, _ in self.suspect], timeout=300)
-            except subprocess.TimeoutExpired as e:
-                raise lib.ModelError("model runner timed out on the sessions the GLib loop does not finish: %s" % e)
-            for (c, i, g), m in zip(self.suspect, ms):
-                k = min(len(g[1]), len(m[1]))
-                if 5 in m[0] and g[1][:k] == m[1][:k] and k > 50:
-                    self.dropped["both_diverge"] += 1
-                else:
-                    self.unfinished.append((c, i, g, m))
+                m = lib.model_run("gloop", [[SUSPECT_FUEL, c[1], c[2]]], timeout=SUSPECT_TIMEOUT)[0]
+            except subprocess.TimeoutExpired:
+                self.dropped["both_diverge"] += 1
+                self.dropped["model_no_answer_in_time"] = self.dropped.get("model_no_answer_in_time", 0) + 1
+                continue
+            k = min(len(g[1]), len(m[1]))
+            if 5 in m[0] and (6 in g[0] or (g[1][:k] == m[1][:k] and k > 50)):
+                self.dropped["both_diverge"] += 1
+            else:
+                self.unfinished.append((c, i, g, m))
 
 
 def report_pair(chk, c, i, g, mm, mg, stats):
@@ -298,14 +310,10 @@ def run(chk, tier):
         chk.extra["glib_worker"] = dict(spawned=worker.spawned, timeouts=worker.timeouts)
     for k, v in fw.dropped.items():
         chk.hist("discarded:%s" % k, v)
-    for c, i in fw.hung[:2]:
-        chk.violation("glib-hangs", "the real GLibEventLoop did not finish a session within %.0f s of wall clock (MainLoop: %s)%s"
-                      % (CASE_TIMEOUT, [OUT.get(o) for o in i[0]],
-                         "; the run was cut short after %d such sessions" % MAX_HANGS if len(fw.hung) >= MAX_HANGS else ""),
-                      dict(kind="c20", case=c), found=True)
     for c, i, g, m in fw.unfinished[:5]:
         chk.violation("glib-does-not-finish",
-                      "the real GLibEventLoop does not finish a session (outcome %s) that MainLoop and the GLib model finish: MainLoop %s, model %s"
+                      "the real GLibEventLoop does not finish a session (outcome %s; 6 = no answer within the wall budget, twice) that MainLoop and "
+                      "the GLib model finish: MainLoop %s, model %s"
                       % ([OUT.get(o) for o in g[0]], [OUT.get(o) for o in i[0]], [OUT.get(o) for o in m[0]]),
                       dict(kind="c20", case=c, glib_tail=pretty(g[1])[-40:]), found=(D.observable(c, i) != D.observable(c, m)))
     mf_witness = 0
@@ -414,21 +422,26 @@ def run_apps(chk, tier):
             suspects.append((c, a, b)); continue
         kept.append(([200 + 8 * max(len(a[1]), len(b[1]))] + c[1:6], a, b))
     # the GLib application does not finish although the MainLoop one does: legitimate only if the GLib model diverges too
-    if suspects:
-        ms = lib.model_run("gscreen", [[2500] + c[1:6] for c, _, _ in suspects], timeout=300)
-        for (c, a, b), m in zip(suspects, ms):
-            if 5 in m[0]:
-                st["glib_unfinished"] += 1; chk.hist("app:discarded:glib-diverges-in-model-too")
+    for c, a, b in suspects:
+        try:
+            m = lib.model_run("gscreen", [[1200] + c[1:6]], timeout=SUSPECT_TIMEOUT)[0]
+        except subprocess.TimeoutExpired:
+            st["glib_unfinished"] += 1; chk.hist("app:discarded:glib-model-no-answer-in-time"); continue
+        if 5 in m[0]:
+            st["glib_unfinished"] += 1; chk.hist("app:discarded:glib-diverges-in-model-too")
+        else:
+            again = c20_app.run_alone_glib(c) if b[0] == "HANG" else b
+            if again[0] in ("HANG", "ERROR") or 5 in again[0]:
+                chk.violation("glib-app-does-not-finish", "the real App on GLibEventLoop does not finish a session that the GLib model "
+                              "finishes with outcomes %s (MainLoop: %s)" % (m[0], a[0]), dict(kind="c20app", case=c), found=True)
             else:
-                again = c20_app.run_alone_glib(c) if b[0] == "HANG" else b
-                if again[0] in ("HANG", "ERROR") or 5 in again[0]:
-                    chk.violation("glib-app-does-not-finish", "the real App on GLibEventLoop does not finish a session that the GLib model "
-                                  "finishes with outcomes %s (MainLoop: %s)" % (m[0], a[0]), dict(kind="c20app", case=c), found=True)
-                else:
-                    kept.append(([200 + 8 * max(len(a[1]), len(again[1]))] + c[1:6], a, again))
-    mm = lib.model_run("screen", [k[0] for k in kept], timeout=600)
-    mg = lib.model_run("gscreen", [k[0] for k in kept], timeout=600)
-    fr = [r == [1] for r in lib.model_run("gscreenfrag", [k[0] for k in kept], timeout=600)]
+                kept.append(([200 + 8 * max(len(a[1]), len(again[1]))] + c[1:6], a, again))
+    try:
+        mm = lib.model_run("screen", [k[0] for k in kept], timeout=900)
+        mg = lib.model_run("gscreen", [k[0] for k in kept], timeout=900)
+        fr = [r == [1] for r in lib.model_run("gscreenfrag", [k[0] for k in kept], timeout=900)]
+    except subprocess.TimeoutExpired as e:
+        raise lib.ModelError("model runner timed out on the application sessions: %s" % e)
     st["in_fragment"] = 0; st["in_fragment_nontrivial"] = 0
     reported = set()
     for (c, a, b), m1, m2, f in zip(kept, mm, mg, fr):
